@@ -51,9 +51,9 @@ class EvalInterp(ArrInterp):
     def external_call(self, name, args, kwargs, node):
         r = self.root
         short = name.split(":")[-1]
-        if short == "_unique_without_zeros" and args and isinstance(args[0], AArr):
+        if self.prog.is_anchor(name, "utils.numpy_utils:_unique_without_zeros") and args and isinstance(args[0], AArr):
             return self.labels_of(args[0])
-        if short == "_count_unique_without_zeros" and args and isinstance(args[0], AArr):
+        if self.prog.is_anchor(name, "utils.numpy_utils:_count_unique_without_zeros") and args and isinstance(args[0], AArr):
             return len(self.labels_of(args[0]))
         if short == "_check_array_integrity":
             return None
@@ -281,7 +281,7 @@ class PipelineInterp(EvalInterp):
         if short.endswith("calculate_all"):
             r.stages.append(("calculate_all", args, kwargs, node))
             return None
-        if short == "_get_paired_crop":
+        if self.prog.is_anchor(name, "_functionals:_get_paired_crop"):
             r.stages.append(("crop", args, kwargs, node))
             return Sym("CROP")
         return super().external_call(name, args, kwargs, node)
